@@ -72,6 +72,17 @@ CHECKS = {
             "construction from the same objects; TLC accepts a line only if the observed projection of the updated cards equals the one the "
             "heap model computes and all recorded snapshot comparisons hold.",
             "Trusted: TLC, python dict equality, id() for identity.", "DESIGN.md 7/C20"),
+    "C05": ("model_checking",
+            "TLC proves the RGE identities on ScaleVar.tla (tables as the code combines them, exact rationals) + exact replay: the same "
+            "integer instantiations injected into the real compute_local, every order key and entry validated by TLC; end-to-end switch runs",
+            "TLC proves, as identities of truncated polynomials in (a_s, tR, tF) with 2x2 channel matrices over exact rationals, that the "
+            "tables (sector_mapping, ren_coeffs, binomial split) make the observable independent of muR through a_s^3 and of muF through "
+            "a_s^2 (against an independently stated NLO DGLAP), that switching a variation off zeroes exactly its log terms and that "
+            "intrinsic kernels get no muF logs, for generic integer instantiations x nf 3..6 x pto 1..3 x every flavour sector. The same "
+            "instantiations are injected into the real ScaleVariations/compute_local and TLC accepts the recorded tensors only if every "
+            "entry equals its own table. Real runs in the four switch combinations and moments of the convolved labels anchor the rest.",
+            "Trusted: TLC, eko's flavour-sector projectors, numpy, scipy.quad. Domain assumption of the code's tables: LO coefficients have "
+            "no gluon component. The N3LO muF terms do not exist in the code (pto<=2 for muF, as the property states).", "DESIGN.md 7/C05"),
 }
 
 PENDING = {}
